@@ -209,6 +209,12 @@ Proof.
     destruct (detach_shape _ _ _ D). now apply (Fin s2 (with_streams s2 (kdel fst id (streams s2)))).
   - destruct (detach (put_s x1 s1) o) as [s2|] eqn:D; [|discriminate]. intros [= <-].
     destruct (detach_shape _ _ _ D). now apply (Fin s2 (with_streams s2 (kdel fst id (streams s2)))).
+  - destruct (cid =? 0).
+    + intros D. destruct (detach_soft_shape _ _ _ D). now apply (Fin s' s').
+    + intros D. destruct (attach_shape _ _ _ _ D). now apply (Fin s' s').
+  - destruct (cid =? 0).
+    + intros D. destruct (detach_soft_shape _ _ _ D). now apply (Fin s' s').
+    + intros D. destruct (attach_shape _ _ _ _ D). now apply (Fin s' s').
 Qed.
 
 Lemma stream_event_tail s id st cid host port kw :
@@ -312,6 +318,8 @@ Proof.
     change (get_s o (with_streams s2 (kdel fst id (streams s2)))) with (get_s o s2). apply Fin. eapply detach_Ss; eauto.
   - destruct (detach (put_s x1 s1) o) as [s2|] eqn:D; [|discriminate]. intros [= <-].
     change (get_s o (with_streams s2 (kdel fst id (streams s2)))) with (get_s o s2). apply Fin. eapply detach_Ss; eauto.
+  - destruct (cid =? 0); intros D; apply Fin; [eapply detach_soft_Ss | eapply attach_Ss]; eauto.
+  - destruct (cid =? 0); intros D; apply Fin; [eapply detach_soft_Ss | eapply attach_Ss]; eauto.
 Qed.
 
 Lemma stream_event_state s id st cid host port kw s' : WF s -> stream_event s id st cid host port kw = Some s' ->
